@@ -124,9 +124,20 @@ def run_and_validate(run, hz, jobs, meta, nproc=None, taskset=None, env=None, ti
             rec = {"job": byid[i], "rejected_event": first, "result": {k: v for k, v in (rows.get(i) or {}).items() if k != "events"},
                    "events_head": (rows.get(i) or {}).get("events", [])[:6], "reproduced": i in again_rej}
             if first.get("hang") and i not in again_rej:
-                # a watchdog expiry that does not reproduce is load, not a verdict (DESIGN 3.3)
-                print("WARN unreproduced watchdog expiry on job %s (%s) ignored" % (i, byid[i]["fn"]), flush=True)
-                continue
+                # alone in a fresh process the job returns. Before calling it load, run it again the way it ran: after the
+                # jobs that preceded it in its driver process (a lock left behind by an earlier call hangs only the later one)
+                kparts = max(1, min(nproc or vlib.NCPU, len(order)))
+                part = [p_ for p_ in (order[x::kparts] for x in range(kparts)) if any(j_["id"] == i for j_ in p_)][0]
+                prefix = part[: [j_["id"] for j_ in part].index(i) + 1]
+                rows3, crashed3 = vlib.run_hz_jobs(hz, "workflow", prefix, nproc=1, taskset=taskset, env=env, timeout=timeout)
+                r3 = rows3.get(i)
+                hung_again = bool(r3 and r3.get("hang")) or any(c.get("timed_out") for c in crashed3)
+                if not hung_again:
+                    # a watchdog expiry that does not reproduce either way is load, not a verdict (DESIGN 3.3)
+                    print("WARN unreproduced watchdog expiry on job %s (%s) ignored" % (i, byid[i]["fn"]), flush=True)
+                    continue
+                rec["reproduced_after_preceding_jobs"] = [j_["id"] for j_ in prefix]
+                rec["preceding_jobs"] = [{k_: v_ for k_, v_ in j_.items() if k_ != "items"} for j_ in prefix[-6:-1]]
             # otherwise the recorded behaviour of the real code itself contradicts the spec; schedule-dependent
             # rejections need not reproduce on a second free-running execution
             confirmed.append((i, rec))
